@@ -104,6 +104,10 @@ struct FeaCfg {
     size: Option<Vec<Spec>>,
     ss: BTreeMap<String, Vec<Spec>>,
     cv: BTreeMap<String, CvCfg>,
+    /// name-bearing features (by tag) with script-specific rules: several feature records per tag
+    scripted: BTreeSet<String>,
+    /// stylistic sets that also have a positioning rule: the tag is in GSUB and in GPOS
+    in_gpos: BTreeSet<String>,
 }
 #[derive(Clone, Debug, Default)]
 struct Cfg {
@@ -147,9 +151,14 @@ fn names_block(v: &[Spec], kw: &str) -> String {
 
 fn fea_text(f: &FeaCfg) -> String {
     let mut s = String::new();
+    if !f.scripted.is_empty() {
+        s.push_str("languagesystem DFLT dflt;\nlanguagesystem latn dflt;\nlanguagesystem cyrl dflt;\n");
+    }
     // features first, tables after: the allocation order does not depend on the file order
     for (tag, names) in &f.ss {
-        s.push_str(&format!("feature {tag} {{ featureNames {{ {} }}; sub a by a.alt; }} {tag};\n", names_block(names, "name")));
+        let pos = if f.in_gpos.contains(tag) { " pos a 10;" } else { "" };
+        let scr = if f.scripted.contains(tag) { " script cyrl; sub b by b.alt;" } else { "" };
+        s.push_str(&format!("feature {tag} {{ featureNames {{ {} }}; sub a by a.alt;{pos}{scr} }} {tag};\n", names_block(names, "name")));
     }
     for (tag, cv) in &f.cv {
         let mut p = String::new();
@@ -165,7 +174,8 @@ fn fea_text(f: &FeaCfg) -> String {
         for n in &cv.params {
             p.push_str(&format!("ParamUILabelNameID {{ {} }}; ", names_block(n, "name")));
         }
-        s.push_str(&format!("feature {tag} {{ cvParameters {{ {p}Character 0x61; }}; sub a by a.alt; }} {tag};\n"));
+        let scr = if f.scripted.contains(tag) { " script cyrl; sub b by b.alt;" } else { "" };
+        s.push_str(&format!("feature {tag} {{ cvParameters {{ {p}Character 0x61; }}; sub a by a.alt;{scr} }} {tag};\n"));
     }
     if let Some(n) = &f.size {
         s.push_str(&format!("feature size {{ parameters 10.0 3 80 139; {} }} size;\n", names_block(n, "sizemenuname")));
@@ -286,6 +296,8 @@ fn glyphs(shift: f64) -> Vec<GlyphSrc> {
         GlyphSrc::new(".notdef", 500.0).rect(50.0, 0.0, 450.0 + shift, 700.0),
         GlyphSrc::new("a", 500.0 + shift).uni(0x61).rect(40.0, 0.0, 400.0 + shift, 500.0),
         GlyphSrc::new("a.alt", 520.0 + shift).rect(40.0, 0.0, 420.0 + shift, 500.0),
+        GlyphSrc::new("b", 510.0 + shift).uni(0x431).rect(40.0, 0.0, 410.0 + shift, 700.0),
+        GlyphSrc::new("b.alt", 530.0 + shift).rect(40.0, 0.0, 430.0 + shift, 700.0),
     ]
 }
 
@@ -392,7 +404,8 @@ struct Decoded {
     stat_axes: Vec<(String, u16)>,
     stat_values: Vec<(u16, u16)>, // (axis index, value name id)
     stat_elided: Option<u16>,
-    feat: Vec<(String, String, Vec<u16>)>, // (tag, kind, ids)
+    /// EVERY feature record that has parameters: (table, record index, tag, kind, ids)
+    feat: Vec<(String, usize, String, String, Vec<u16>)>,
 }
 
 fn decode(bytes: &[u8]) -> Result<Decoded, String> {
@@ -439,33 +452,30 @@ fn decode(bytes: &[u8]) -> Result<Decoded, String> {
         d.stat_elided = stat.elided_fallback_name_id().map(|x| x.to_u16());
     }
     use write_fonts::read::tables::layout::FeatureParams as FP;
-    let mut feats = |fl: write_fonts::read::tables::layout::FeatureList| -> Result<(), String> {
-        for rec in fl.feature_records() {
+    let mut feats = |table: &str, fl: write_fonts::read::tables::layout::FeatureList| -> Result<(), String> {
+        for (ix, rec) in fl.feature_records().iter().enumerate() {
             let f = rec.feature(fl.offset_data()).map_err(|e| e.to_string())?;
             if let Some(p) = f.feature_params() {
                 let p = p.map_err(|e| format!("feature params {}: {e}", rec.feature_tag()))?;
                 let tag = rec.feature_tag().to_string();
-                let entry = match p {
-                    FP::StylisticSet(s) => (tag, "ss".to_string(), vec![s.ui_name_id().to_u16()]),
-                    FP::Size(s) => (tag, "size".to_string(), vec![s.name_entry()]),
+                let (kind, ids) = match p {
+                    FP::StylisticSet(s) => ("ss", vec![s.ui_name_id().to_u16()]),
+                    FP::Size(s) => ("size", vec![s.name_entry()]),
                     FP::CharacterVariant(c) => {
-                        (tag, "cv".to_string(), vec![c.feat_ui_label_name_id().to_u16(), c.feat_ui_tooltip_text_name_id().to_u16(), c.sample_text_name_id().to_u16(), c.first_param_ui_label_name_id().to_u16(), c.num_named_parameters()])
+                        ("cv", vec![c.feat_ui_label_name_id().to_u16(), c.feat_ui_tooltip_text_name_id().to_u16(), c.sample_text_name_id().to_u16(), c.first_param_ui_label_name_id().to_u16(), c.num_named_parameters()])
                     }
                 };
-                if !d.feat.contains(&entry) {
-                    d.feat.push(entry);
-                }
+                d.feat.push((table.to_string(), ix, tag, kind.to_string(), ids));
             }
         }
         Ok(())
     };
     if let Ok(g) = font.gsub() {
-        feats(g.feature_list().map_err(|e| e.to_string())?)?;
+        feats("GSUB", g.feature_list().map_err(|e| e.to_string())?)?;
     }
     if let Ok(g) = font.gpos() {
-        feats(g.feature_list().map_err(|e| e.to_string())?)?;
+        feats("GPOS", g.feature_list().map_err(|e| e.to_string())?)?;
     }
-    d.feat.sort();
     Ok(d)
 }
 
@@ -894,6 +904,13 @@ fn gen_fea(rng: &mut Rng, axes: &[AxisCfg]) -> FeaCfg {
     for tag in ["ss01", "ss02"] {
         if rng.chance(1, 2) {
             f.ss.insert(tag.into(), gen_specs(rng, true));
+            // several feature records for this tag: script-specific rules, and / or the tag in GPOS too
+            if rng.chance(1, 3) {
+                f.scripted.insert(tag.into());
+            }
+            if rng.chance(1, 4) {
+                f.in_gpos.insert(tag.into());
+            }
         }
     }
     if rng.chance(2, 5) {
@@ -911,6 +928,9 @@ fn gen_fea(rng: &mut Rng, axes: &[AxisCfg]) -> FeaCfg {
             cv.params.push(gen_specs(rng, false));
         }
         f.cv.insert("cv01".into(), cv);
+        if rng.chance(1, 3) {
+            f.scripted.insert("cv01".into());
+        }
     }
     if rng.chance(1, 5) {
         f.size = Some(gen_specs(rng, false));
@@ -1094,6 +1114,22 @@ fn scenarios() -> Vec<(&'static str, Cfg, usize)> {
     f.stat = Some(StatCfg { elided: Some(Elided::Rec(w("Regular"))), axes: vec![("wght".into(), w("Weight"), vec![(400, w("Regular"))])] });
     c.fea = Some(f);
     v.push(("fea-all-kinds", c, 1));
+    // name-bearing features with more than one feature record (script-specific rules, GSUB and GPOS)
+    let mut c = base.clone();
+    let mut f = FeaCfg::default();
+    f.ss.insert("ss01".into(), w("Fancy a and be"));
+    f.ss.insert("ss02".into(), w("Second set"));
+    f.scripted.insert("ss01".into());
+    f.in_gpos.insert("ss01".into());
+    f.in_gpos.insert("ss02".into());
+    f.cv.insert("cv01".into(), CvCfg { label: Some(w("CV label")), tooltip: Some(w("Tip")), sample: None, params: vec![w("P1"), w("P2")] });
+    f.scripted.insert("cv01".into());
+    c.fea = Some(f.clone());
+    v.push(("several-feature-records-variable", c.clone(), 1));
+    c.axes.clear();
+    c.instances.clear();
+    c.records.push((300, "Source 300".into()));
+    v.push(("several-feature-records-static-source-id-300", c, 1));
     v
 }
 
@@ -1167,7 +1203,9 @@ fn check_font(t: &mut Tally, c: &Cfg, d: &Decoded, version: &str, sj: &serde_jso
     // ---- STAT
     let mut o_adj: Vec<u16> = Vec::new();
     let mut o_elided: Option<u16> = None;
-    let mut groups: Vec<(String, Vec<Spec>, u16)> = Vec::new(); // (kind, specs, id the font uses)
+    // (kind, specs, id the font uses, where it is used, number of the source group)
+    let mut groups: Vec<(String, Vec<Spec>, u16, String, usize)> = Vec::new();
+    let mut gid = 1000usize;
     if let Some(st) = &fea.stat {
         if !d.has_stat {
             viol(t, "stat-missing", "the FEA declares a STAT table, the font has none".into(), sj.clone());
@@ -1182,7 +1220,7 @@ fn check_font(t: &mut Tally, c: &Cfg, d: &Decoded, version: &str, sj: &serde_jso
                         viol(t, "stat-elided-id-shifted", format!("ElidedFallbackNameID {want} in the source, elidedFallbackNameID {got} = {:?} in the font", win_string(d, got)), sj.clone());
                     }
                 }
-                (Some(Elided::Rec(specs)), Some(got)) => groups.push(("stat-elided".into(), specs.clone(), got)),
+                (Some(Elided::Rec(specs)), Some(got)) => { gid += 1; groups.push(("stat-elided".into(), specs.clone(), got, String::new(), gid)) },
                 _ => {}
             }
             for (k, (tag, names, values)) in st.axes.iter().enumerate() {
@@ -1191,7 +1229,7 @@ fn check_font(t: &mut Tally, c: &Cfg, d: &Decoded, version: &str, sj: &serde_jso
                         viol(t, "stat-axis-order", format!("STAT axis {k} is {dtag}, the source says {tag}"), sj.clone());
                     }
                     o_adj.push(*id);
-                    groups.push(("stat-axis".into(), names.clone(), *id));
+                    { gid += 1; groups.push(("stat-axis".into(), names.clone(), *id, String::new(), gid)) };
                     if *id < 256 {
                         viol(t, "axis-id-reserved", format!("STAT axis {tag} uses reserved name id {id}"), sj.clone());
                     }
@@ -1204,7 +1242,7 @@ fn check_font(t: &mut Tally, c: &Cfg, d: &Decoded, version: &str, sj: &serde_jso
                 }
                 for ((_, vn), id) in values.iter().zip(vals.iter()) {
                     o_adj.push(*id);
-                    groups.push(("stat-value".into(), vn.clone(), *id));
+                    { gid += 1; groups.push(("stat-value".into(), vn.clone(), *id, String::new(), gid)) };
                 }
             }
         }
@@ -1225,66 +1263,104 @@ fn check_font(t: &mut Tally, c: &Cfg, d: &Decoded, version: &str, sj: &serde_jso
             need(t, "stat-elided", e);
         }
     }
-    // ---- feature parameters
+    // ---- feature parameters: EVERY feature record of a name-bearing tag, not the first per tag
     let mut o_size: Vec<u16> = Vec::new();
+    let mut o_records: Vec<(bool, Vec<usize>, Vec<u16>)> = Vec::new(); // (size?, positions in o_size / o_adj, ids of the record)
+    let recs_of = |tag: &str, kind: &str| -> Vec<&(String, usize, String, String, Vec<u16>)> { d.feat.iter().filter(|f| f.2 == tag && f.3 == kind).collect() };
     if let Some(specs) = &fea.size {
-        match d.feat.iter().find(|f| f.1 == "size") {
-            Some(f) => {
-                o_size.push(f.2[0]);
-                groups.push(("size".into(), specs.clone(), f.2[0]));
+        let recs = recs_of("size", "size");
+        if recs.is_empty() {
+            viol(t, "feature-params-missing", "size feature has no parameters".into(), sj.clone());
+        }
+        gid += 1;
+        for (k, f) in recs.iter().enumerate() {
+            if k == 0 {
+                o_size.push(f.4[0]);
             }
-            None => viol(t, "feature-params-missing", "size feature has no parameters".into(), sj.clone()),
+            o_records.push((true, vec![0], vec![f.4[0]]));
+            groups.push(("size".into(), specs.clone(), f.4[0], format!("{} feature record #{} (size)", f.0, f.1), gid));
         }
     }
     for (tag, specs) in &fea.ss {
-        match d.feat.iter().find(|f| f.0 == *tag && f.1 == "ss") {
-            Some(f) => {
-                o_adj.push(f.2[0]);
-                groups.push(("ss".into(), specs.clone(), f.2[0]));
+        let recs = recs_of(tag, "ss");
+        if recs.is_empty() {
+            viol(t, "feature-params-missing", format!("{tag} has no feature parameters"), sj.clone());
+        }
+        gid += 1;
+        let pos = o_adj.len();
+        for (k, f) in recs.iter().enumerate() {
+            if k == 0 {
+                o_adj.push(f.4[0]);
             }
-            None => viol(t, "feature-params-missing", format!("{tag} has no feature parameters"), sj.clone()),
+            o_records.push((false, vec![pos], vec![f.4[0]]));
+            groups.push(("ss".into(), specs.clone(), f.4[0], format!("{} feature record #{} ({tag})", f.0, f.1), gid));
+        }
+        let want_records = 1 + fea.scripted.contains(tag) as usize + fea.in_gpos.contains(tag) as usize;
+        if !recs.is_empty() && recs.len() < want_records {
+            viol(t, "feature-record-count", format!("{tag}: {} feature records with parameters, the source calls for at least {want_records}", recs.len()), sj.clone());
         }
     }
     for (tag, cv) in &fea.cv {
-        match d.feat.iter().find(|f| f.0 == *tag && f.1 == "cv") {
-            Some(f) => {
-                for (slot, g) in [&cv.label, &cv.tooltip, &cv.sample].into_iter().enumerate() {
-                    if let Some(specs) = g {
-                        o_adj.push(f.2[slot]);
-                        groups.push(("cv".into(), specs.clone(), f.2[slot]));
-                    } else if f.2[slot] != 0 && f.2[slot] != 0xFFFF {
-                        viol(t, "cv-unset-name-has-id", format!("{tag}: a name the source does not give has id {}", f.2[slot]), sj.clone());
+        let recs = recs_of(tag, "cv");
+        if recs.is_empty() {
+            viol(t, "feature-params-missing", format!("{tag} has no feature parameters"), sj.clone());
+        }
+        let gid0 = gid;
+        gid += 3 + cv.params.len();
+        let pos0 = o_adj.len();
+        for (k, f) in recs.iter().enumerate() {
+            let whre = format!("{} feature record #{} ({tag})", f.0, f.1);
+            let mut positions = Vec::new();
+            let mut ids = Vec::new();
+            let mut p = pos0;
+            for (slot, g) in [&cv.label, &cv.tooltip, &cv.sample].into_iter().enumerate() {
+                if let Some(specs) = g {
+                    if k == 0 {
+                        o_adj.push(f.4[slot]);
                     }
-                }
-                if f.2[4] as usize != cv.params.len() {
-                    viol(t, "cv-param-count", format!("{tag}: {} named parameters, the source has {}", f.2[4], cv.params.len()), sj.clone());
-                }
-                for (k, specs) in cv.params.iter().enumerate() {
-                    let id = f.2[3].wrapping_add(k as u16);
-                    o_adj.push(id);
-                    groups.push(("cv".into(), specs.clone(), id));
+                    positions.push(p);
+                    ids.push(f.4[slot]);
+                    p += 1;
+                    groups.push(("cv".into(), specs.clone(), f.4[slot], whre.clone(), gid0 + 1 + slot));
+                } else if f.4[slot] != 0 && f.4[slot] != 0xFFFF {
+                    viol(t, "cv-unset-name-has-id", format!("{whre}: a name the source does not give has id {}", f.4[slot]), sj.clone());
                 }
             }
-            None => viol(t, "feature-params-missing", format!("{tag} has no feature parameters"), sj.clone()),
+            if f.4[4] as usize != cv.params.len() {
+                viol(t, "cv-param-count", format!("{whre}: {} named parameters, the source has {}", f.4[4], cv.params.len()), sj.clone());
+            }
+            for (j, specs) in cv.params.iter().enumerate() {
+                let id = f.4[3].wrapping_add(j as u16);
+                if k == 0 {
+                    o_adj.push(id);
+                }
+                positions.push(p);
+                ids.push(id);
+                p += 1;
+                groups.push(("cv".into(), specs.clone(), id, whre.clone(), gid0 + 4 + j));
+            }
+            o_records.push((false, positions, ids));
         }
     }
-    // every FEA name group: id has records, they are the source's strings, ids are not shared
-    for (k, (kind, specs, id)) in groups.iter().enumerate() {
+    // every FEA name group, at every place that refers to it: the id has records, they are the
+    // source's strings, and ids are not shared between different groups
+    for (k, (kind, specs, id, whre, g)) in groups.iter().enumerate() {
         let wanted: Vec<&Spec> = specs.iter().filter(|s| !s.3.is_empty() && !(s.0 == 1 && s.1 != 0)).collect();
-        if !wanted.is_empty() && kind != "size" {
-            need(t, kind, *id);
+        let at = if whre.is_empty() { kind.clone() } else { format!("{whre}: {kind}") };
+        if !wanted.is_empty() && kind != "size" && !has_id(*id) {
+            viol(t, &format!("ref-missing-{kind}"), format!("{at} refers to name id {id}, which has no record (the source says {:?})", wanted[0].3), sj.clone());
         }
         for s in wanted {
             if !d.names.iter().any(|n| n.0 == *id && n.1 == s.0 && n.2 == s.1 && n.3 == s.2 && n.4 == s.3) {
                 let got: Vec<_> = d.names.iter().filter(|n| n.0 == *id).collect();
-                viol(t, &format!("fea-{kind}-name-wrong"), format!("{kind} uses name id {id}; the source says {:?}, the records under that id are {:?}", s, got), sj.clone());
+                viol(t, &format!("fea-{kind}-name-wrong"), format!("{at} uses name id {id}; the source says {:?}, the records under that id are {:?}", s, got), sj.clone());
             }
         }
-        if *id >= 256 && *id != 0xFFFF && groups.iter().skip(k + 1).any(|g| g.2 == *id) {
+        if *id >= 256 && *id != 0xFFFF && groups.iter().skip(k + 1).any(|o| o.2 == *id && o.4 != *g) {
             viol(t, "fea-name-id-shared", format!("two name groups of the feature file use the same name id {id}"), sj.clone());
         }
         if *id < 256 && kind != "size" {
-            viol(t, "fea-name-id-reserved", format!("{kind} uses reserved name id {id}"), sj.clone());
+            viol(t, "fea-name-id-reserved", format!("{at} uses reserved name id {id}"), sj.clone());
         }
     }
     // explicit FEA name records are in the table (ids >= 256 may move, reserved ones not)
@@ -1343,7 +1419,7 @@ fn check_font(t: &mut Tally, c: &Cfg, d: &Decoded, version: &str, sj: &serde_jso
     // ---- observation for the model
     let stat_axes = if fea.stat.is_some() || variable.is_empty() { "None".to_string() } else { format!("(Some {})", c_nlist(&d.stat_axes.iter().map(|a| a.1).collect::<Vec<_>>())) };
     format!(
-        "{{| o_names := {}; o_fvar_axes := {}; o_fvar_inst := {}; o_stat_axes := {}; o_adj := {}; o_size := {}; o_elided := {} |}}",
+        "{{| o_names := {}; o_fvar_axes := {}; o_fvar_inst := {}; o_stat_axes := {}; o_adj := {}; o_size := {}; o_elided := {}; o_records := {} |}}",
         c_frecs(&d.names),
         c_nlist(&d.fvar_axes.iter().map(|a| a.1).collect::<Vec<_>>()),
         coq_list(&d.fvar_inst, |(s, p, _)| {
@@ -1354,7 +1430,8 @@ fn check_font(t: &mut Tally, c: &Cfg, d: &Decoded, version: &str, sj: &serde_jso
         stat_axes,
         c_nlist(&o_adj),
         c_nlist(&o_size),
-        coq_opt(&o_elided, |x| coq_n(*x as u64))
+        coq_opt(&o_elided, |x| coq_n(*x as u64)),
+        coq_list(&o_records, |(sz, pos, ids)| format!("({}, {}, {})", coq_bool(*sz), coq_list(pos, |p| coq_nat(*p)), c_nlist(ids)))
     )
 }
 
